@@ -3,11 +3,11 @@
 import json, os
 
 CHECKS = {
- "C01": ("4.1", "The full statement (every program of the conforming grammar gets only Notices) needs every rule ported and is NOT proved. Proved fragments: verdict and exit plumbing (all-Notice files are OK, exit 0), the 42 header (C13.accept), integer constants (C11.int_valid), the 80-column limit (no token of a file whose lines are <= 80 columns starts beyond column 81, so CheckLineLen is silent). Everything else is decided per generated program by the acceptance oracle on the real pipeline (partial)",
-         "Lean 4 proof of the modelled clauses + acceptance oracle over grammar-generated programs"),
- "C02": ("4.2", "The full statement (every catalogue operator at every site yields its code on the edited line) is NOT proved. Proved fragments: the modelled rules emit their code when handed the pattern (line length, header, include guard, the four counters) and one Error-level diagnostic makes the file Error! with non-zero exit. The segmentation hypothesis and all other rules are decided per (program, operator, site) by the catalogue oracle on the real pipeline (partial)",
-         "Lean 4 proof of the modelled clauses + violation-catalogue oracle (90 edit operators)"),
- "C03": ("4.3", "Lean theorems: CheckLineLen reports a line iff some token of the statement on it starts beyond column 81, each line at most once; the NEWLINE token ending a line of visual width w (tab stops 4) is at column w+1 whatever precedes the line, hence a code line ending in a newline is reported iff w > 80; CheckLineLen runs after every matched primary; `//` and block-comment lines are reported iff their width exceeds 80 (first/interior/last line); the four counters are compared exactly at 25/5/4/5. That the counters equal the measured quantities is maintained by unported rules and decided by the boundary oracle at L-3..L+6 in generated contexts (partial)",
+ "C01": ("4.1", "For EVERY rule table (file-level Lean theorems over complete ports composed with the engine loop): CheckSpacing adds nothing to a file whose blanks are clean (no SPACE at column 1, next to a blank or before a newline; no TAB before a newline), CheckTernary/CheckLineLen add nothing to a file without `?` whose tokens start at or before column 81, a well-formed 42 header yields no INVALID_HEADER. The full statement (every program of the conforming grammar gets only Notices) needs every rule ported and is NOT proved. Proved fragments: verdict and exit plumbing (all-Notice files are OK, exit 0), the 42 header (C13.accept), integer constants (C11.int_valid), the 80-column limit (no token of a file whose lines are <= 80 columns starts beyond column 81, so CheckLineLen is silent). Everything else is decided per generated program by the acceptance oracle on the real pipeline (partial)",
+         "Lean 4 proof (complete ports of the always-run checks composed with the engine-loop partition; modelled clauses) + always-stream correspondence + acceptance oracle over grammar-generated programs"),
+ "C02": ("4.2", "For EVERY rule table (file-level Lean theorems): in a file that reaches a verdict every `?` token gets TERNARY_FBIDDEN at its position, every line wider than 80 columns ending in a newline token gets LINE_TOO_LONG, a trailing blank run starting with a SPACE gets SPC_BEFORE_NL at that SPACE, a file not beginning with a header comment gets exactly one INVALID_HEADER. The full statement (every catalogue operator at every site yields its code on the edited line) is NOT proved. Proved fragments: the modelled rules emit their code when handed the pattern (line length, header, include guard, the four counters) and one Error-level diagnostic makes the file Error! with non-zero exit. The segmentation hypothesis and all other rules are decided per (program, operator, site) by the catalogue oracle on the real pipeline (partial)",
+         "Lean 4 proof (complete ports of the always-run checks composed with the engine-loop partition; loop-reachability lemma for CheckSpacing) + always-stream correspondence + violation-catalogue oracle (91 edit operators)"),
+ "C03": ("4.3", "End to end for EVERY rule table: on every file that reaches a verdict the lines CheckLineLen reports are exactly the lines holding a token whose first raw character is at a visual column beyond 81 (linelen_e2e / linelen_source / long_line_reported, composing the lexer position theorem C09, the engine partition C07 and the ported check). Lean theorems: CheckLineLen reports a line iff some token of the statement on it starts beyond column 81, each line at most once; the NEWLINE token ending a line of visual width w (tab stops 4) is at column w+1 whatever precedes the line, hence a code line ending in a newline is reported iff w > 80; CheckLineLen runs after every matched primary; `//` and block-comment lines are reported iff their width exceeds 80 (first/interior/last line); the four counters are compared exactly at 25/5/4/5. That the counters equal the measured quantities is maintained by unported rules and decided by the boundary oracle at L-3..L+6 in generated contexts (partial)",
          "Lean 4 proof (membership characterisation of the line-length scan + position spec) + rule-snapshot correspondence + boundary oracle"),
  "C04": ("4.4", "Lean theorems about cliRun (tail of main): one verdict per file in order, OK iff no Error-level diagnostic, exit 0 iff every file OK for every list of files (any length/order/repetition), first fatal file named with non-zero exit, empty run exits 0; tied to __main__.py by a byte-exact correspondence of stdout and exit status on the real main()",
          "Lean 4 proof (induction over the file list) + cli correspondence + CLI oracle"),
@@ -27,7 +27,7 @@ CHECKS = {
          "Lean 4 proof (span lemmas over the specialised matchers, induction-free over unbounded digit strings) + literal-family correspondence"),
  "C12": ("4.12", "Lean theorems (lexer half): the digraph/trigraph tables are exactly the standard's; `peek` returns the standard character for every table entry and every continuation; braces and brackets yield the same token kind in every spelling and lexing continues at the same place; inter-token splices in both spellings are skipped before any sub-lexer runs. The whole-sequence simulation, longest-match for multi-character operators (checked exhaustively over operators x spellings x contexts) and the diagnostics clause are decided by oracle/correspondence (partial)",
          "Lean 4 proof (table obligations + peek/pop lemmas) + respelling oracle and lex correspondence"),
- "C13": ("4.13", "Lean theorems about the pattern CheckHeader compiles (captured and translated to a sequence of atoms on every run; obligation: it has exactly the eleven-line shape) and about the three-flag state machine of CheckHeader.run: every well-formed standard header — any file name, login, e-mail, stamps, art — matches the pattern and the file never gets INVALID_HEADER whatever follows; INVALID_HEADER is emitted at most once for every statement sequence; a file whose first statement is not an own-line block comment gets it exactly once. Mutations inside the header are decided by the oracle and the regex correspondence (partial)",
+ "C13": ("4.13", "File level, for EVERY rule table: CheckHeader over a whole file is the state machine over the statements of the engine trace: at most one INVALID_HEADER per file, exactly one when the file does not begin with a header comment, none after a well-formed header. Lean theorems about the pattern CheckHeader compiles (captured and translated to a sequence of atoms on every run; obligation: it has exactly the eleven-line shape) and about the three-flag state machine of CheckHeader.run: every well-formed standard header — any file name, login, e-mail, stamps, art — matches the pattern and the file never gets INVALID_HEADER whatever follows; INVALID_HEADER is emitted at most once for every statement sequence; a file whose first statement is not an own-line block comment gets it exactly once. Mutations inside the header are decided by the oracle and the regex correspondence (partial)",
          "Lean 4 proof (explicit decomposition against the translated pattern; fold invariant of the state machine) + regex/state-machine correspondences"),
  "C14": ("4.14", "Lean theorems about the decision logic of CheckPreprocessorProtection.run (Model/Guard.lean) for every header base name over [a-z0-9_.] and every macro symbol: the guard symbol is the upper-cased name with dots replaced; .c files are never checked; the correct guard is accepted; a different symbol gives HEADER_PROT_NAME / _UPPER, a missing #define _NODEF, a second outermost #ifndef _MULT, code before / after _ALL / _ALL_AF. What the rule reads from the context (indent, macro table, history) is maintained by unported rules and is observed: every real call of the rule is replayed through the model (partial)",
          "Lean 4 proof (case analysis of the decision function, universally quantified symbols) + rule-snapshot correspondence"),
